@@ -236,6 +236,12 @@ fn c09_send_q2__inside() {
 }
 
 fn recv_body(inside: bool) {
+    recv_body_via(inside, false)
+}
+
+/// `via_try == true`: the same obligations for `Channel::try_recv` on a non-empty channel (it must
+/// behave exactly like `recv` and report success).
+fn recv_body_via(inside: bool, via_try: bool) {
     let (mut ex, ch) = chan_exec();
     let old = set_view(&ex.threads);
     let a = old.active.unwrap();
@@ -243,7 +249,12 @@ fn recv_body(inside: bool) {
     let co = cv(&ex, &ch);
     kani::assume(co.msg_cnt >= 1); // non-empty: the blocking phase is c09_recv_blocks_while_empty
     kani::assume(region_token_receiver(&old) == inside);
-    crate::rt::scheduler::verif_kani::with_ctx(&mut ex, || ch.recv(Location::disabled()));
+    if via_try {
+        let got = crate::rt::scheduler::verif_kani::with_ctx(&mut ex, || ch.try_recv(Location::disabled()));
+        oblige!("C09.try_recv.returns_a_message_exactly_when_one_is_queued", got);
+    } else {
+        crate::rt::scheduler::verif_kani::with_ctx(&mut ex, || ch.recv(Location::disabled()));
+    }
     let cn = cv(&ex, &ch);
     let new = set_view(&ex.threads);
     let na = new.th[a];
@@ -278,7 +289,7 @@ fn recv_body(inside: bool) {
 }
 
 crate::with_fire_forbidden! {
-//@ props=C09,C05,C04,C10 tier=quick fns=src/rt/mpsc.rs::Channel::recv,src/rt/mpsc.rs::Channel::is_empty,src/rt/object.rs::Ref::branch_disable bounded=threads:N=3,queue:len<=2 models=Execution::schedule=probe,Scheduler::switch=counting,VersionVec::join=s_vv_models_agree
+//@ props=C09,C05,C04,C10 tier=quick fns=src/rt/mpsc.rs::Channel::recv,src/rt/mpsc.rs::Channel::post_recv,src/rt/mpsc.rs::Channel::is_empty,src/rt/object.rs::Ref::branch_disable bounded=threads:N=3,queue:len<=2 models=Execution::schedule=probe,Scheduler::switch=counting,VersionVec::join=s_vv_models_agree
 #[kani::proof]
 #[kani::unwind(7)]
 #[kani::stub(crate::rt::execution::Execution::schedule, crate::rt::execution::Execution::schedule_probe_model)]
@@ -354,3 +365,44 @@ fn c10_channel_no_leak_silent() {
     reach!("c10_channel_no_leak");
 }
 
+
+crate::with_fire_forbidden! {
+//@ props=C09,C05,C04,C01 tier=quick fns=src/rt/mpsc.rs::Channel::try_recv,src/rt/mpsc.rs::Channel::post_recv bounded=threads:N=3,queue:len<=2 models=Execution::schedule=probe,Scheduler::switch=counting,VersionVec::join=s_vv_models_agree
+#[kani::proof]
+#[kani::unwind(7)]
+#[kani::stub(crate::rt::execution::Execution::schedule, crate::rt::execution::Execution::schedule_probe_model)]
+#[kani::stub(crate::rt::scheduler::Scheduler::switch, crate::rt::scheduler::verif_kani::switch_counting_model)]
+fn c09_try_recv_nonempty_behaves_like_recv() {
+    let inside: bool = kani::any();
+    if inside { recv_body_via(true, true) } else { recv_body_via(false, true) }
+}
+}
+
+crate::with_fire_forbidden! {
+//@ props=C09,C01 tier=quick fns=src/rt/mpsc.rs::Channel::try_recv bounded=threads:N=3 models=Execution::schedule=probe,Scheduler::switch=counting
+#[kani::proof]
+#[kani::unwind(7)]
+#[kani::stub(crate::rt::execution::Execution::schedule, crate::rt::execution::Execution::schedule_probe_model)]
+#[kani::stub(crate::rt::scheduler::Scheduler::switch, crate::rt::scheduler::verif_kani::switch_counting_model)]
+fn c09_try_recv_empty_reports_empty_after_a_branch_point() {
+    let (mut ex, ch) = chan_exec_len(Some(0));
+    let old = set_view(&ex.threads);
+    let a = old.active.unwrap();
+    let co = cv(&ex, &ch);
+    let got = crate::rt::scheduler::verif_kani::with_ctx(&mut ex, || ch.try_recv(Location::disabled()));
+    let cn = cv(&ex, &ch);
+    let new = set_view(&ex.threads);
+    oblige!("C09.try_recv.returns_a_message_exactly_when_one_is_queued", !got);
+    // the emptiness test is an operation on the channel that DPOR sees (it races with send)
+    oblige!("C01.enable.try_recv_announces_MsgRecv_then_schedules_once", schedule_calls() == 1
+        && schedule_saw().unwrap().th[a].op == Some((0, RECV)) && matches!(schedule_saw().unwrap().th[a].st, StView::Runnable { .. }));
+    oblige!("C09.try_recv.empty_changes_nothing", cn.msg_cnt == co.msg_cnt && cn.qlen == co.qlen && vv_eq(&cn.sender_sync, &co.sender_sync));
+    let mut i = 0;
+    while i < N {
+        let (o, n) = (old.th[i], new.th[i]);
+        oblige!("C09.try_recv.empty_blocks_nobody", if i == a { n.st == o.st && vv_eq(&n.causality, &o.causality) } else { th_view_eq(&o, &n) });
+        i += 1;
+    }
+    reach!("c09_try_recv_empty");
+}
+}
